@@ -40,8 +40,11 @@ enum Op {
     MutSplit,
     /// Bytes: is_unique() where the answer is known (the thread itself holds a second handle / owner-backed)
     IsUnique,
+    /// is_unique() asked through the lent `&Bytes` while other threads clone through it (the answer is racy by
+    /// documentation and not constrained; the call itself must not race with the promotion)
+    IsUniqueRef,
 }
-const B_OPS: [Op; 11] = [Op::CloneRef, Op::CloneOwn, Op::Read, Op::Slice, Op::Drop, Op::TryIntoMut, Op::IntoVec, Op::IntoMut, Op::Truncate, Op::Advance, Op::IsUnique];
+const B_OPS: [Op; 12] = [Op::CloneRef, Op::CloneOwn, Op::Read, Op::Slice, Op::Drop, Op::TryIntoMut, Op::IntoVec, Op::IntoMut, Op::Truncate, Op::Advance, Op::IsUnique, Op::IsUniqueRef];
 const M_OPS: [Op; 7] = [Op::Reserve, Op::TryReclaim, Op::FreezeRead, Op::MutIntoVec, Op::Drop, Op::Read, Op::MutSplit];
 
 #[derive(Clone, Debug)]
@@ -438,6 +441,18 @@ fn run_thread(tid: u32, ops: &[Op], mut own: Vec<H>, shared_ref: Option<&Bytes>,
                     }
                 }
             }
+            Op::IsUniqueRef => {
+                if let Some(s) = shared_ref {
+                    let u = s.is_unique();
+                    if u && sh.owner {
+                        out.errs.push("is_unique() answered true for owner-backed data".into());
+                    }
+                    // a handle of this thread's own on the same storage makes "unique" impossible
+                    if u && own.iter().any(|h| matches!(h, H::B(b, _, true) if !b.is_empty())) {
+                        out.errs.push("is_unique() through the lent &Bytes answered true while this thread holds another handle on the storage".into());
+                    }
+                }
+            }
             Op::MutIntoVec => {
                 if let Some(H::M(..)) = own.last() {
                     if let Some(H::M(m, model)) = own.pop() {
@@ -679,6 +694,11 @@ fn gen_prog(r: &mut Rng, big: bool) -> Prog {
         // racy shapes: a reader that drops, and someone who converts / frees afterwards
         if setup == 0 {
             ops.insert(0, Op::CloneRef);
+            // a quarter of the threads first ask is_unique() through the lent handle, i.e. before they have
+            // synchronised with a promotion performed by another thread
+            if r.chance(1, 4) {
+                ops.insert(0, Op::IsUniqueRef);
+            }
         }
         if !big && !is_m && r.chance(1, 3) {
             ops = vec![if setup == 0 { Op::CloneRef } else { Op::Read }, Op::Read, Op::Drop];
